@@ -46,10 +46,11 @@ type vSched struct {
 	rreq  map[int]*vRelayReq
 	gated bool // main loop is parked at the rs.dctimeout gate
 	step  int
+	since time.Duration // when the current step began (relative to the start of the rig)
 }
 
 func (sc *vSched) diverged(st vStep, why string) error {
-	sc.r.log(vEvent{"ev": "diverged", "step": sc.step, "act": st.Act, "why": why})
+	sc.r.log(vEvent{"ev": "diverged", "step": sc.step, "act": st.Act, "why": why, "since": sc.since.Milliseconds()})
 	return fmt.Errorf("step %d %s: %s", sc.step, st.Act, why)
 }
 
@@ -290,6 +291,7 @@ func TestVerifC16Replay(t *testing.T) {
 	var err error
 	for i, st := range r.plan.Steps {
 		sc.step = i
+		sc.since = time.Since(r.t0)
 		if err = sc.exec(st); err != nil {
 			break
 		}
@@ -298,6 +300,7 @@ func TestVerifC16Replay(t *testing.T) {
 		// after the last session the real loop goes on: it must take a slot and poll again
 		for _, act := range []string{"GetInc", "Get", "Poll"} {
 			sc.step++
+			sc.since = time.Since(r.t0)
 			if err = sc.exec(vStep{Act: act}); err != nil {
 				break
 			}
